@@ -32,6 +32,38 @@ def nest_arrobj(d):
 def poly_ok(c1, c2, K=400):
     return c2 <= 4 * c1 + K
 
+def shape_families():
+    """pairs of nested shapes (a, b) per depth on which is_subset holds / merger succeeds: the positive paths
+    are where a repeated recursive test doubles the work per level"""
+    num, st = ('#', False), ('S', False)
+    def obj(d, leaf, opt=False):
+        x = leaf
+        for _ in range(d):
+            x = ('O', opt, (('k', x), ('n', num)))
+        return vlib.norm_sh(x)
+    def arr(d, leaf):
+        x = leaf
+        for _ in range(d):
+            x = ('A', False, x)
+        return vlib.norm_sh(x)
+    def tup(d, leaf):
+        x = leaf
+        for _ in range(d):
+            x = ('T', False, (x, st))
+        return vlib.norm_sh(x)
+    def arrobj(d, leaf):
+        x = leaf
+        for _ in range(d):
+            x = ('A', False, ('O', False, (('k', x), ('n', num))))
+        return vlib.norm_sh(x)
+    wide = ('U', False, (num, st))
+    fams = {}
+    for name, f in (("object", obj), ("array", arr), ("tuple", tup), ("array_of_objects", arrobj)):
+        fams[name + "/same"] = [(f(d, num), f(d, num)) for d in range(1, 17)]
+        fams[name + "/widened_leaf"] = [(f(d, num), f(d, wide)) for d in range(1, 17)]
+    fams["object/optional_levels"] = [(obj(d, num), obj(d, num, True)) for d in range(1, 17)]
+    return fams
+
 def run(ctx):
     l1 = [sh_str(s) for s in vlib.level1()]
     nt = lambda l, r: r.split()[-1] not in ("0", "1")
@@ -56,6 +88,54 @@ def run(ctx):
     ds = list(dict.fromkeys(doc_str(d) for d in docs))
     ctx.correspond(["counts\tinfer_text\t" + d for d in ds], "parse_rule call counter vs node count", nt)
     ctx.correspond(["counts\tinfer_value\t" + d for d in ds], "From<&Value> call counter vs node count", nt)
+    # ---- the proved bounds, re-tested on the implementation's own counters (concrete failing input when a
+    #      rewrite multiplies the work): C12_subset_calls  calls <= |a|*|b|;  C12_merger_calls  merger calls
+    #      <= min(|a|,|b|), subset calls <= 2|a||b|
+    fams = shape_families()
+    flines, fkeys, fout = [], [], []
+    for k, prs in fams.items():
+        for op in ("subset", "merger"):
+            for d, (a, b) in enumerate(prs):     # one depth at a time: stop a family once it explodes (hang guard)
+                l = "counts\t%s\t%s\t%s" % (op, sh_str(a), sh_str(b))
+                r = ctx.impl([l])[0]
+                flines.append(l); fkeys.append((k, op, d + 1)); fout.append(r)
+                if not r.startswith("CNT ") or max(int(x) for x in r.split()[1:]) > 2000000:
+                    break
+    bound_lines = [l for l in lines if l.startswith("counts\tsubset") or l.startswith("counts\tmerger")][:6000] + flines
+    shapes = sorted({x for l in bound_lines for x in l.split("\t")[2:4]})
+    sz = dict(zip(shapes, (int(r.split()[1]) for r in ctx.model(["size\t" + x for x in shapes]))))
+    bres = ctx.impl(bound_lines[:len(bound_lines) - len(flines)]) + fout[:len(flines)]
+    worst = 0.0
+    for l, r in zip(bound_lines, bres):
+        if not r.startswith("CNT "):
+            if r in ("HANG", "SKIPPED") or r.startswith("CRASH"):
+                ctx.fail("call does not return: " + r, l, r)
+            continue
+        c = [int(x) for x in r.split()[1:]]
+        _, op, a, b = l.split("\t")
+        sa, sb = sz[a], sz[b]
+        if op == "subset":
+            worst = max(worst, c[3] / (sa * sb))
+            if c[3] > sa * sb:
+                ctx.fail("is_subset makes more recursive calls than the proved bound |a|*|b| (C12_subset_calls)", l,
+                         {"calls": c[3], "size_a": sa, "size_b": sb})
+        else:
+            if c[2] > min(sa, sb) or c[3] > 2 * sa * sb:
+                ctx.fail("merger makes more recursive calls than the proved bounds min(|a|,|b|) / 2|a||b| (C12_merger_calls)", l,
+                         {"merger_calls": c[2], "subset_calls": c[3], "size_a": sa, "size_b": sb})
+    ctx.notes["subset_calls_over_bound_max_ratio"] = round(worst, 4)
+    cf = {}
+    for (k, op, d), r in zip(fkeys, fout):
+        if r.startswith("CNT "):
+            c = [int(x) for x in r.split()[1:]]
+            cf.setdefault("%s/%s" % (op, k), []).append(c[3] if op == "subset" else c[2] + c[3])
+    ctx.notes["call_counts_by_depth"] = cf
+    for k, v in cf.items():
+        for i in range(2, len(v)):
+            j = 2 * (i + 1) - 1
+            if j < len(v) and not poly_ok(v[i], v[j], 50):
+                ctx.fail("recursive calls grow faster than quadratically with nesting depth", k, {"depth": [i + 1, j + 1], "calls": [v[i], v[j]], "series": v})
+                break
     # ---- allocation families (implementation only)
     fam = {}
     depths = list(range(1, 21))
